@@ -145,6 +145,20 @@ def catalogue(chk, deb, btcc, tap):
     for s in ["", "[", "]", "0x", "()", "a(", "a)", "((", "[[[", "x" * 5000, "0x" + "ab" * 60000, "[" + "1 " * 3000 + "]", "-9223372036854775808", "9223372036854775808"]:
         cli("btcc-token", "btcc", [s])
     cli("btcc-noargs", "btcc", [])
+    # ---- tap given transactions of unusual shape for a correctly funded output (several inputs, the output at another index, no outputs)
+    GKx = bytes.fromhex("79be667ef9dcbbac55a06295ce870b07029bfcdb2dce28d959f2815b16f81798")
+    q_, _par = btc.taproot_output(GKx, btc.tapleaf_hash(b"\x51"))
+    spk_ = b"\x51\x20" + q_
+    for n_in, n_out, vout in ((2, 1, 0), (3, 2, 1), (1, 0, 0), (1, 1, 2), (2, 0, 0)):
+        outs_ = [btc.TxOut(5000 + i, b"\x51") for i in range(max(vout + 1, 1))]
+        outs_[vout] = btc.TxOut(100000, spk_)
+        fund_ = btc.Tx(version=2, vin=[btc.TxIn(bytes(32), 0, b"", 0xffffffff)], vout=outs_)
+        vin_ = [btc.TxIn(fund_.txid(), vout, b"", 0xfffffffd)] + [btc.TxIn(bytes([7 + i]) * 32, i, b"", 0xffffffff) for i in range(n_in - 1)]
+        rng.shuffle(vin_)
+        tx_ = btc.Tx(version=2, vin=vin_, vout=[btc.TxOut(90000, b"\x00\x14" + bytes(20)) for _ in range(n_out)])
+        for extra in (["0"], [], ["0", "--sig=" + "11" * 64]):
+            sigarg = [a for a in extra if a.startswith("--")]
+            cli("tap-tx-shapes", "tap", sigarg + ["--tx=" + tx_.hex(), "--txin=" + fund_.hex(), GKx.hex(), "1", "0x51"] + [a for a in extra if not a.startswith("--")], stdout_tty=True)
     # ---- tap argument shapes
     K = "79be667ef9dcbbac55a06295ce870b07029bfcdb2dce28d959f2815b16f81798"
     for a in [[K], [K, "1"], [K, "0", "51"], [K, "1025", "51"], [K, "2", "51"], [K, "1", "51", "1"], [K, "1", "51", "0"], [K, "1", "51", "0", "0x"], [K[:-2], "1", "51"], [K + "00", "1", "51"],
